@@ -59,8 +59,8 @@ def material(key):
         return _MATS[key]
     from neml import elasticity, models
     from srlife import library
-    if key == "Econst":
-        em = elasticity.IsotropicLinearElasticModel(150000.0, "youngs", 0.3, "poissons")
+    if key in ("Econst", "Econst0"):
+        em = elasticity.IsotropicLinearElasticModel(150000.0, "youngs", 0.3 if key == "Econst" else 0.0, "poissons")
         m = models.SmallStrainElasticity(em, alpha=ALPHA_CONST)
     else:
         name, variant = key.split("/")
@@ -70,7 +70,7 @@ def material(key):
 
 
 def is_elastic(key):
-    return key == "Econst" or key.endswith("/elastic_model") or key == "SiC/cares"
+    return key in ("Econst", "Econst0") or key.endswith("/elastic_model") or key == "SiC/cares"
 
 
 def make_tube(case):
@@ -119,6 +119,26 @@ def gen_case(rng, ndim, mat, nsteps, mesh=None, load=None):
     a = float(material(mat).alpha(Tb))
     d = [h * (a * (float(np.mean(T[k + 1])) - float(np.mean(T[0]))) + load * rng.uniform(-6e-4, 6e-4)) for k in range(nsteps)]
     return dict(ndim=ndim, mat=mat, mesh=mesh, r=r, t=t, h=h, times=times, p=p, T=T.tolist(), d=d, solver=dict(FD_SOLVER), load=load)
+
+
+def gen_quiet_case(rng, ndim, kind):
+    """steps whose free dofs are already in equilibrium at the starting guess (the Newton loop has nothing to
+    do): 'null-first' = nothing applied in step 1 (cold start of a day), then a loaded step;
+    'nu0' = Poisson's ratio 0, pressure held, pure axial extension"""
+    mat = "Econst" if kind == "null-first" else "Econst0"
+    c = gen_case(rng, ndim, mat, 2, mesh={1: [4, 4, 2], 2: [3, 8, 2], 3: [3, 4, rng.choice([2, 3])]}[ndim])
+    T = np.array(c["T"])
+    T[:] = T[0]
+    h = c["h"]
+    if kind == "null-first":
+        T[2] = T[0] + 25.0
+        c.update(p=[0.0, 0.0, 4.0], d=[0.0, 2e-4 * h])
+    else:
+        pr = rng.choice([0.0, 6.0])
+        c.update(p=[0.0, pr, pr], d=[0.0 if pr else 1e-4 * h, 3e-4 * h])
+    c["T"] = T.tolist()
+    c["quiet"] = kind
+    return c
 
 
 class HistoryTimeout(Exception):
@@ -562,10 +582,14 @@ def run(ctx):
               (1, rng.choice(inel), 1, 1)]
     if not quick:
         forced += [(nd, m, 2, md) for nd in (1, 2, 3) for m in el[1:3] for md in (1, 3)] + [(2, m, 1, 2) for m in rng.sample(inel, 4)]
-    plan = [(a, b, c, None) for (a, b, c) in plan] + forced
+    quiet = [(nd, "Econst" if kd == "null-first" else "Econst0", 2, kd) for nd in (1, 2, 3) for kd in ("null-first", "nu0")]
+    plan = [(a, b, c, None) for (a, b, c) in plan] + forced + quiet
     n_forced_elastic = [0, 0]
     for ndim, mat, ns, fdiv in plan:
-        case = gen_case(rng, ndim, mat, ns)
+        if isinstance(fdiv, str):
+            case, fdiv = gen_quiet_case(rng, ndim, fdiv), None
+        else:
+            case = gen_case(rng, ndim, mat, ns)
         if fdiv is not None:
             case["solver"].update(force_divide=True, max_divide=fdiv)
         if time.time() - t_fd > total_budget:
